@@ -320,6 +320,8 @@ def child_run(case, lib, eng=None):
         system.state = list(case["state"])
     if case.get("chem") is not None:
         system.chemostats = list(case["chem"])
+    for (lab, pos, val) in case.get("set_chem", []):
+        system.set_chemostat(lab, pos, val)          # as in the documentation: any int / bool flag
     option = case["option"]
     kw = {}
     if case.get("units"):
